@@ -123,9 +123,72 @@ def check_network(tw, rxns, fails, tags, rng):
     return nontrivial
 
 
+def realizability_case(rxns, flows, fails, tags):
+    """verdict and certificate of is_realizable against an exhaustive search over all orderings of the firings"""
+    H = gen.build_crn(rxns)
+    eids = sorted(H.edges)
+    flow = dict(zip(eids, flows))
+    verts, edges, flow = hypergraph_to_pr_inputs(H, flow=flow)
+    pr = PathwayRealizability().load_hypergraph_and_flow(verts, edges, flow).build_petri_net_from_flow()
+    ok, cert = pr.is_realizable(max_states=20000, max_depth=50)
+    seqs = [e for e in edges for _ in range(flow[e])]
+    truth = False
+    for perm in set(itertools.permutations(seqs)):
+        cur = {s: 0 for s in verts}
+        good = True
+        for e in perm:
+            t, h = edges[e]
+            if any(cur.get(p, 0) < w for p, w in t.items()):
+                good = False
+                break
+            for p, w in t.items():
+                cur[p] -= w
+            for p, w in h.items():
+                cur[p] = cur.get(p, 0) + w
+        if good and all(x == 0 for x in cur.values()):
+            truth = True
+            break
+    if bool(ok) != truth:
+        fails.append({"function": "PathwayRealizability.is_realizable", "violations": [
+            "reported %s, exhaustive search over orderings says %s" % (ok, truth)], "rxns": rxns, "flow": flow, "tags": tags})
+
+
+def petri_history(tw, rng, fails, tags):
+    """a history of edits on one PetriNet (including re-defining a transition), enabled/fire checked after every edit"""
+    net = PetriNet()
+    places = ["A", "B", "C"]
+    tids = ["t1", "t2"]
+    for step in range(rng.randint(2, 6)):
+        tid = rng.choice(tids)
+        pre = {p: rng.randint(1, 2) for p in rng.sample(places, rng.randint(0, 2))}
+        post = {p: rng.randint(1, 2) for p in rng.sample(places, rng.randint(0, 2))}
+        net.add_transition(tid, pre, post)
+        for _ in range(2):
+            m = {p: rng.randint(0, 2) for p in places}
+            for t in list(net.transitions):
+                out, v = tw.check_call(K_EN, PetriNet.enabled, dict(self=net, marking=dict(m), tid=t))
+                out2, v2 = tw.check_call(K_FI, PetriNet.fire, dict(self=net, marking=dict(m), tid=t))
+                if v or v2:
+                    fails.append({"function": "PetriNet.enabled" if v else "PetriNet.fire", "violations": list(v) + list(v2),
+                                  "history_len": step + 1, "marking": m, "tid": t, "pre": net.transitions[t].pre, "tags": tags})
+                    return
+
+
 def run(tw, tier, seed, only=None):
     rng = random.Random(seed)
     fails, cases, nontriv, samples = [], 0, 0, []
+    # realizability: all networks over 2 species, <= 2 reactions, coefficients {1,2}, flows in {1,2}
+    for rxns in gen.small_networks(2, 2, (1, 2), "AB"):
+        for flows in itertools.product((1, 2), repeat=len(rxns)):
+            if sum(flows) > 4:
+                continue
+            cases += 1
+            realizability_case(rxns, flows, fails, {"kind": "realizability-exhaustive"})
+        if len(fails) > 20:
+            break
+    for _ in range(60 if tier == "quick" else 600):
+        cases += 1
+        petri_history(tw, rng, fails, {"kind": "petri-history"})
     for rxns in gen.small_networks(3, 2 if tier == "quick" else 3, (1,)):
         cases += 1
         nontriv += check_network(tw, rxns, fails, {"kind": "exhaustive"}, rng)
